@@ -161,7 +161,25 @@ class TU(object):
         if b.get('file') and os.path.abspath(b['file']) != os.path.abspath(self.path):
             return ''
         try:
-            return self.bytes[b['offset']: e['offset'] + e.get('tokLen', 1)].decode('utf-8', 'replace')
+            start, end = b['offset'], e['offset'] + e.get('tokLen', 1)
+            if 'expansionLoc' in (r.get('end') or {}):
+                # a function-like macro invocation: every token maps to the macro name; extend over its argument list
+                j = end
+                while j < len(self.bytes) and self.bytes[j:j + 1] in (b' ', b'\t', b'\n'):
+                    j += 1
+                if self.bytes[j:j + 1] == b'(':
+                    depth = 0
+                    while j < len(self.bytes):
+                        ch = self.bytes[j:j + 1]
+                        if ch == b'(':
+                            depth += 1
+                        elif ch == b')':
+                            depth -= 1
+                            if depth == 0:
+                                end = j + 1
+                                break
+                        j += 1
+            return self.bytes[start:end].decode('utf-8', 'replace')
         except Exception:
             return ''
 
